@@ -57,6 +57,12 @@ inductive SubtreeRejects (env : Env) (lp : List Param) : String → Nat → Prop
       ClassRejects lp sd → (∀ t ∈ env.directSubclasses s, SubtreeRejects env lp t.name h) → h < H →
       SubtreeRejects env lp s H
 
+/-- `s` and every registered class below it are plain classes without a custom recogniser (so none of them
+takes a scalar); `H` bounds the height -/
+inductive PlainHier (env : Env) : String → Nat → Prop
+  | mk (s : String) (sd : ClassDef) (h H : Nat) : env.find s = some sd → sd.recognize = none → sd.kind = .plain →
+      (∀ t ∈ env.directSubclasses s, PlainHier env t.name h) → h < H → PlainHier env s H
+
 /-- a path of registered direct-subclass steps from `base` down to `c`: at every class on the way, the
 next class of the path is among the registered direct subclasses and the subtrees of the other ones
 reject the mapping (`lp`: the parameters of the leaf class `c`); `k` steps -/
@@ -172,6 +178,15 @@ inductive HasTyE (K : Nat) (env : Env) : Ty → PyVal → Prop
   | any (v : PyVal) : PlainAny v → HasTyE K env .any v
   | optNone (T : Ty) : NonNullTy env T → HasTyE K env (optTy T) (.scalar .none)
   | optSome (T : Ty) (v : PyVal) : NonNullTy env T → HasTyE K env T v → HasTyE K env (optTy T) v
+  | optNoneH (base : String) (H : Nat) : PlainHier env base H → H ≤ K →
+      HasTyE K env (optTy (.cls base)) (.scalar .none)
+  | optSomeH (base : String) (d : ClassDef) (kw : PyKVs) (k j : Nat) : HierLeaf env d →
+      Chain env d.params K base d.name k → k ≤ K → UpChain env d j → j ≤ K →
+      (base = d.name ∨ d.ancestors.contains base = true) →
+      kw.toList.map (·.1) = d.params.map (fun p => strKey p.name) →
+      (∀ e ∈ kw.toList, ∀ prm ∈ d.params, e.1 = strKey prm.name → HasTyE K env prm.ty e.2) →
+      d.initRaises (scalarArgs kw.toList) = false →
+      HasTyE K env (optTy (.cls base)) (.obj d.name kw)
   | union (ms : Tys) (m : Ty) (k : NK) (v : PyVal) : m ∈ ms.toList → MemberTy env m k →
       (∀ m' ∈ ms.toList, m' ≠ m → ∃ k', MemberTy env m' k' ∧ k' ≠ k) → HasTyE K env m v →
       HasTyE K env (.union ms) v
@@ -179,10 +194,10 @@ inductive HasTyE (K : Nat) (env : Env) : Ty → PyVal → Prop
 -- how much fuel the loader needs for the node of a value
 mutual
 def need (K : Nat) : PyVal → Nat
-  | .list xs => 3 + needL K xs
-  | .dict kvs => 3 + needK K kvs
+  | .list xs => 3 + K + needL K xs
+  | .dict kvs => 3 + K + needK K kvs
   | .obj _ kw => 4 + K + K + needK K kw
-  | _ => 3
+  | _ => 3 + K
 def needL (K : Nat) : PyVals → Nat
   | .nil => 0
   | .cons x xs => max (need K x) (needL K xs)
@@ -191,7 +206,7 @@ def needK (K : Nat) : PyKVs → Nat
   | .cons _ v r => max (need K v) (needK K r)
 end
 
-theorem need_pos (K : Nat) (v : PyVal) : 3 ≤ need K v := by cases v <;> simp only [need] <;> omega
+theorem need_pos (K : Nat) (v : PyVal) : 3 + K ≤ need K v := by cases v <;> simp only [need] <;> omega
 
 theorem needL_mem (K : Nat) : ∀ (xs : PyVals) (x : PyVal), x ∈ xs.toList → need K x ≤ needL K xs
   | .nil, _, h => by simp [PyVals.toList] at h
@@ -277,6 +292,8 @@ theorem hasTyE_typeMatches_core (K : Nat) (env : Env) (n : Nat)
   | optNone T _ => exact absurd rfl (hno _)
   | optSome T v _ _ => exact absurd rfl (hno _)
   | union ms m k v _ _ _ _ => exact absurd rfl (hno _)
+  | optNoneH base H _ _ => exact absurd rfl (hno _)
+  | optSomeH base d kw k j _ _ _ _ _ _ _ _ _ => exact absurd rfl (hno _)
 
 theorem memberTy_not_union (env : Env) (m : Ty) (k : NK) (h : MemberTy env m k) : ∀ ms, m ≠ Ty.union ms := by
   intro ms e
@@ -306,6 +323,15 @@ theorem hasTyE_typeMatches (K : Nat) (env : Env) : ∀ (n : Nat) (T : Ty) (v : P
       have := hasTyE_typeMatches_core K env n ih m v hn hin (memberTy_not_union env m k hmt)
       simp only [typeMatches]
       exact typeMatchesAny_of_mem env v m this ms hmem
+    | optNoneH base H _ _ => simp [optTy, typeMatches, typeMatchesAny]
+    | optSomeH base d kw k j L _ _ _ _ hinst _ _ _ =>
+      have : typeMatches env (.obj d.name kw) (.cls base) = true := by
+        simp only [typeMatches, isInstanceOf, L.found]
+        rcases hinst with h | h
+        · simp [h]
+        · have h' : base ∈ d.ancestors := by simpa using h
+          simp [h']
+      simp [optTy, typeMatchesAny, this, typeMatches]
     | str s => exact hasTyE_typeMatches_core K env n ih _ _ hn (HasTyE.str s) (by intro ms e; cases e)
     | int i => exact hasTyE_typeMatches_core K env n ih _ _ hn (HasTyE.int i) (by intro ms e; cases e)
     | bool b => exact hasTyE_typeMatches_core K env n ih _ _ hn (HasTyE.bool b) (by intro ms e; cases e)
@@ -464,7 +490,7 @@ theorem construct_plain (K : Nat) (env : Env) (denv : DumpEnv) (tbl : List Entry
           all2_map_right' _ ha (fun e hem p ⟨⟨ko, hko', hkn⟩, ⟨vo, hvo, hvn⟩⟩ => by
             obtain ⟨s, hs⟩ := hk e hem
             have hnk := needK_mem K kvs e hem
-            have hfp : 3 ≤ f := by have := need_pos K e.2; omega
+            have hfp := need_pos K e.2
             have hkey := construct_plain K env denv tbl g e.1 ko hko' (hs ▸ PlainAny.str s) f
               (by rw [hs]; simp only [need]; omega)
             have hval := construct_plain K env denv tbl g e.2 vo hvo (hv e hem) f (by omega)
@@ -949,6 +975,8 @@ theorem desc_core (K : Nat) (env : Env) (denv : DumpEnv) (tbl : List Entry) (hns
   | optNone T _ => exact absurd rfl (hno _)
   | optSome T v _ _ => exact absurd rfl (hno _)
   | union ms m k v _ _ _ _ => exact absurd rfl (hno _)
+  | optNoneH base H _ _ => exact absurd rfl (hno _)
+  | optSomeH base d kw k j _ _ _ _ _ _ _ _ _ => exact absurd rfl (hno _)
   | objX d mainKw extraKw S hte hkeys hvals hext hplain hkok hinit =>
     simp only [represent] at h
     split at h
@@ -1185,7 +1213,7 @@ theorem desc_core (K : Nat) (env : Env) (denv : DumpEnv) (tbl : List Entry) (hns
           obtain ⟨s, hs⟩ := hes e hem
           have hv := hev e hem
           have hnk := needK_mem K kvs e hem
-          have hfp : 3 ≤ f := by have := need_pos K e.2; omega
+          have hfp := need_pos K e.2
           refine ⟨?_, hvn ▸ simple_described V e.2 vo hvo hv f (by omega)⟩
           rw [hs] at hko ⊢
           exact hkn ▸ simple_described .str _ ko hko (HasTyE.str s) f (by simp only [need]; omega))
@@ -1376,6 +1404,7 @@ theorem nonNull_value (env : Env) (T : Ty) (v : PyVal) (hnn : NonNullTy env T) (
   | null => cases hnn
   | any _ _ => cases hnn
   | union _ _ _ _ _ _ _ _ => cases hnn
+  | optNoneH _ _ _ _ => cases hnn
   | optNone T' _ => cases hnn
   | optSome T' _ _ _ => cases hnn
 
@@ -1530,6 +1559,8 @@ theorem same_of_noSub (K : Nat) (env : Env) (T : Ty) (v : PyVal) (h : HasTyE K e
   | optNone _ _ => cases h1
   | optSome _ _ _ _ => cases h1
   | union _ _ _ _ _ _ _ _ => cases h1
+  | optNoneH _ _ _ _ => cases h1
+  | optSomeH _ _ _ _ _ _ _ _ _ _ _ _ _ _ => cases h1
 
 theorem nosub_of_nonnull (env : Env) (T : Ty) (h : NonNullTy env T) :
     ∀ base, T = .cls base → env.directSubclasses base = [] := by
@@ -1559,6 +1590,52 @@ theorem nosub_of_member (env : Env) (T : Ty) (k : NK) (h : MemberTy env T k) :
   | null => cases e
   | seq _ _ => cases e
   | map _ _ => cases e
+
+theorem represent_obj_map (denv : DumpEnv) (hns : C07.NoSweeten denv) (g : Nat) (c : String) (kw : PyKVs)
+    (o : RepOut) (h : represent denv (g + 1) (.obj c kw) = .ok o) :
+    ∃ ps, o.node = .map tMap (Pairs.ofList ps) gen := by
+  simp only [represent] at h
+  split at h
+  · cases h
+  · rename_i dd hdd
+    split at h
+    · cases h
+    · rename_i ps tr hpairs
+      split at h
+      · cases h
+      · rename_i n tr' hsw
+        cases h
+        have := C07.sweeten_id denv hns _ _ dd (C07.find_mem denv c dd hdd) _ hsw
+        cases this
+        exact ⟨ps, rfl⟩
+
+/-- a hierarchy of plain classes without custom recognisers does not take a scalar -/
+theorem hier_rejects_scalar (env : Env) (t v : String) (m : Mark) :
+    ∀ (s : String) (H : Nat), PlainHier env s H → ∀ (f : Nat), H ≤ f → ∀ top,
+      Rejects (recognizeReq env f (.scalar t v m) (.classes s top)) := by
+  intro s H h
+  induction h with
+  | mk s sd h H hf hrecog hkind _ hlt ih =>
+    intro f hfuel top
+    obtain ⟨f', rfl⟩ : ∃ f', f = f' + 1 := ⟨f - 1, by omega⟩
+    have hsubs : ∀ u ∈ env.directSubclasses s,
+        (∃ l, recognizeReq env f' (.scalar t v m) (.classes u.name false) = .ok ([Ty.any], l)) ∨
+        Rejects (recognizeReq env f' (.scalar t v m) (.classes u.name false)) :=
+      fun u hu => Or.inr (ih u hu f' (by omega) false)
+    obtain ⟨acc', h1, _, _, h4⟩ := recSubclasses_one
+      (fun u => recognizeReq env f' (.scalar t v m) (.classes u.name false)) Ty.any
+      (env.directSubclasses s) ⟨[], []⟩ hsubs (Or.inl rfl)
+    have hempty : acc'.types = [] := h4 ⟨rfl, fun u hu => ih u hu f' (by omega) false⟩
+    cases hab : sd.abstract
+    · simp only [recognizeReq, hf, h1, hempty, List.length_nil, BEq.rfl, if_true, hab, Bool.false_eq_true,
+        if_false, recUserClass, hrecog, hkind, recFail, finishClasses]
+      exact ⟨_, rfl⟩
+    · simp only [recognizeReq, hf, h1, hempty, List.length_nil, BEq.rfl, if_true, hab, finishClasses]
+      exact ⟨_, rfl⟩
+
+theorem plainHier_found (env : Env) (s : String) (H : Nat) (h : PlainHier env s H) : ∃ sd, env.find s = some sd := by
+  cases h with
+  | mk _ sd _ _ hf _ _ _ _ => exact ⟨sd, hf⟩
 
 /-- **The representers' node describes the value**, for plain data, objects of simple classes and
 `Optional` positions, nested to any depth: recognition singles out one type at every node, and the node has
@@ -1611,6 +1688,43 @@ theorem simple_described (K : Nat) (env : Env) (denv : DumpEnv) (tbl : List Entr
         · obtain ⟨k', hmt', hkk⟩ := hothers m' hm' hmm
           exact Or.inr (reject_member env m' k' k o.node b hmt' hkind hkk)
       exact ⟨m, [okLeaf], hrec, b + 2, rfl, hcore⟩
+    | optNoneH base H hph hHK =>
+      simp only [represent, representScalar] at h; cases h
+      simp only [need] at hf
+      obtain ⟨b, rfl⟩ : ∃ b, f = b + 2 := ⟨f - 2, by omega⟩
+      obtain ⟨sd, hsd⟩ := plainHier_found env base H hph
+      have hreg := find_isRegistered env base sd hsd
+      -- the fuel bound does not mention `H`: state the requirement explicitly
+      by_cases hfuel : H ≤ b
+      · obtain ⟨l1, h1⟩ := hier_rejects_scalar env tNull "null" gen base H hph b hfuel true
+        have h1' : recognizeReq env (b + 1) (.scalar tNull "null" gen) (.ty (.cls base)) = .ok ([], l1) := by
+          simp only [recognizeReq, hreg, if_true]; exact h1
+        have h2 : recognizeReq env (b + 1) (.scalar tNull "null" gen) (.ty .null) = .ok ([.null], [okLeaf]) := by
+          simp [recognizeReq, recScalar, recOk]
+        have hrec : recognize env (b + 2) (.scalar tNull "null" gen) (optTy (.cls base)) = .ok ([.null], [okLeaf]) := by
+          simp only [recognize, optTy, recognizeReq, Tys.toList]
+          exact recUnion_opt _ _ (.cls base) .null l1 [okLeaf] (Or.inr ⟨h1', h2⟩)
+        exact ⟨.null, [okLeaf], hrec, b + 1, rfl, RTcore.null "null" gen⟩
+      · exfalso; omega
+    | optSomeH base d kw k j L hchain hkK hup hjK hinst hkeys hvals hinit =>
+      have hpos := need_pos K (.obj d.name kw)
+      obtain ⟨f', rfl⟩ : ∃ f', f = f' + 1 := ⟨f - 1, by omega⟩
+      obtain ⟨f'', rfl⟩ : ∃ f'', f' = f'' + 1 := ⟨f' - 1, by omega⟩
+      -- the member `Base`, one level down (recognised as the leaf class), and at this level (for the shape)
+      obtain ⟨l1, hr1, _, _, _⟩ := desc_objUp K env denv tbl hns g IH base d kw k j L hchain hkK hup hjK hkeys
+        hvals hinit o h f'' (by omega)
+      obtain ⟨l2, _, fb, hfb, hcore⟩ := desc_objUp K env denv tbl hns g IH base d kw k j L hchain hkK hup hjK hkeys
+        hvals hinit o h (f'' + 1) (by omega)
+      have hfb' : fb = f'' + 1 := by omega
+      rw [hfb'] at hcore
+      obtain ⟨ps, hn⟩ := represent_obj_map denv hns g d.name kw o h
+      have hr3 : ∃ l3, recognizeReq env (f'' + 1) o.node (.ty .null) = .ok ([], l3) := by
+        rw [hn]; simp only [recognizeReq, recScalar, recFail]; exact ⟨_, rfl⟩
+      obtain ⟨l3, hr3⟩ := hr3
+      have hrec : recognize env (f'' + 1 + 1) o.node (optTy (.cls base)) = .ok ([.cls d.name], [okLeaf]) := by
+        simp only [recognize, optTy, recognizeReq, Tys.toList]
+        exact recUnion_opt _ _ (.cls base) (.cls d.name) l1 l3 (Or.inl ⟨hr1, hr3⟩)
+      exact ⟨.cls d.name, [okLeaf], hrec, f'' + 1, rfl, hcore⟩
     | optNone T hnn =>
       simp only [represent, representScalar] at h; cases h
       simp only [need] at hf
@@ -1651,7 +1765,7 @@ objects of *simple* classes (plain, no hooks, no registered bases or subclasses,
 without `_yatiml_extra`, whose extra attributes hold plain data), `Optional[...]` positions, Unions whose
 members accept pairwise different kinds of node, and objects of a leaf class declared as one of its
 registered ancestors (at most `K` steps up; the sibling subtrees next to the path reject the mapping, each
-for lack of a required parameter), nested to any depth: if the dump side has no
+for lack of a required parameter; also behind an `Optional`), nested to any depth: if the dump side has no
 `_yatiml_sweeten` hooks, the node tree the representers build loads back — with enough fuel for the
 depth of the value — as exactly that value: same classes, equal attribute values, same list and mapping
 order.  No precondition about recognition: its uniqueness at every node is derived. -/
@@ -1788,6 +1902,18 @@ example : HasTyE 1 envH (.cls "Shape")
     simp [circleD] at hp
     rcases he with rfl | rfl <;> rcases hp with rfl | rfl <;> simp [strKey] at hk <;>
       first | exact HasTyE.str _ | exact HasTyE.int _
+
+-- `Optional[Shape]`: `None`, and a `Circle`
+theorem shape_plainHier : PlainHier envH "Shape" 2 := by
+  refine PlainHier.mk "Shape" shapeD 1 2 rfl rfl rfl ?_ (by decide)
+  intro t ht
+  have : t ∈ [circleD, squareD] := ht
+  simp at this
+  rcases this with rfl | rfl
+  · exact PlainHier.mk "Circle" circleD 0 1 rfl rfl rfl (fun u hu => by have : u ∈ ([] : List ClassDef) := hu; cases this) (by decide)
+  · exact PlainHier.mk "Square" squareD 0 1 rfl rfl rfl (fun u hu => by have : u ∈ ([] : List ClassDef) := hu; cases this) (by decide)
+
+example : HasTyE 2 envH (optTy (.cls "Shape")) (.scalar .none) := HasTyE.optNoneH "Shape" 2 shape_plainHier (by decide)
 
 -- `Union[int, str, Sequence[int], Point]`: members that take different kinds of node; a string spelt `12`
 example : HasTyE 0 envS (.union (Tys.ofList [.int, .str, .seq .sequence .int, .cls "Point"])) (.scalar (.str "12")) := by
